@@ -320,6 +320,9 @@ var hostileTTML = []string{
 	`<tt frameRate="-1" tickRate="-5"><body><div><p begin="10f" end="20t">x</p></div></body></tt>`,
 	`<tt><head><styling><style id="a" style="a"/></styling></head><body><div><p begin="1s" end="2s" style="a">x</p></div></body></tt>`,
 	`<tt><head><styling><style id="a" style="b"/><style id="b" style="a"/></styling></head><body><div><p begin="1s" end="2s" style="a"><span style="b">x</span></p></div></body></tt>`,
+	`<tt><head><styling><style id="a" style="b"/><style id="b" style="a"/></styling><layout><region id="r" style="a"/><region id="q" style="b" tts:origin="1% 2%"/></layout></head><body><div><p begin="1s" end="2s" region="r" style="b"><span region="q">x</span></p></div></body></tt>`,
+	`<tt><head><styling><style id="a" style="a"/><style id="c" style="a" tts:extent="1% 2%"/></styling><layout><region id="r" style="a"/><region id="q" style="c"/></layout></head><body><div region="q"><p begin="1s" end="2s" region="r">x</p></div></body></tt>`,
+	`<tt><head><styling><style id="a" style="b"/><style id="b" style="c"/><style id="c" style="b"/></styling><layout><region id="r" style="a"/></layout></head><body region="r"><div><p begin="1s" end="2s">x</p></div></body></tt>`,
 	`<tt><head><layout><region id="r" style="nope"/></layout></head><body><div><p begin="1s" end="2s">x</p></div></body></tt>`,
 	`<tt><body><div><p begin="1s" end="2s"><span><span>nested</span><br/></span><br/><br/></p></div></body></tt>`,
 	`<tt><body><div><p begin="1s" end="2s"><p begin="1s">nested p</p></p></div></body></tt>`,
@@ -572,6 +575,27 @@ func TestC08(t *testing.T) {
 			verdict(rt, "C08", "c08", c, checkC08)
 		})
 	}
+	rapidCheck(t, "C08/open-other-extension", tier(1500, 100000), func(rt *rapid.T) {
+		// the opener given a name whose extension tells nothing, whatever the file holds: a valid document of any format,
+		// its first bytes only, a mutated one
+		format := rapid.SampledFrom(allFormats).Draw(rt, "format")
+		doc, o := genHostileDoc(rt, format)
+		switch rapid.IntRange(0, 3).Draw(rt, "content") {
+		case 0:
+			doc = docGen(format).Draw(rt, "valid")
+		case 1:
+			doc = docGen(format).Draw(rt, "valid")
+			doc = doc[:rapid.IntRange(0, min(len(doc), 24)).Draw(rt, "keep")]
+		case 2:
+			doc = doc[:rapid.IntRange(0, min(len(doc), 1100)).Draw(rt, "keep")]
+		}
+		c := c08Case{Format: "open", Doc: doc, Opts: o, Ext: rapid.SampledFrom([]string{"txt", "sub", "xml", "", "json", "srt.bak", "vtt~", "stl2", "t s", "TXT"}).Draw(rt, "ext")}
+		ev.Case(true, string(doc)+c.Ext, "open", "extension-of-no-format")
+		if len(doc) < 12 {
+			ev.Label("file-shorter-than-12-bytes")
+		}
+		verdict(rt, "C08", "c08", c, checkC08)
+	})
 	rapidCheck(t, "C08/write", tier(6000, 600000), func(rt *rapid.T) {
 		g := genGL(rt, true)
 		c := c08Case{Writer: rapid.SampledFrom(writerFormats).Draw(rt, "writer"), Spec: &g}
